@@ -20,6 +20,29 @@ the pass in which they complain, and the EXPECT machine of asmerr.c with a count
     between and after blocks / optional second block announcing the same or another number) TLC checks
     PendingEmptyOutside (the pending list is explicit state, empty whenever no block is open), PositionIsPlanted, NoCleanLineNamed, PositionsIdentify, ExpectExact, ExpectProtocol.
     (MacroProc_MC of C11 additionally checks PosAgree for every statement of every program it explores.)
+    Family `linelen` (dimension: LENGTH and LINE END of the physical lines, spec/LineReader.tla): the line number of a
+    message is the number of physical lines read so far, and the code gets it from strutil.c ReadLnCont(), which does
+    not see lines but fgets() chunks of a line buffer (1024 bytes, +128 whenever < 128 are free, never shrunk, shared
+    by all files and passes).  LineReader models that loop on byte classes (chunks, growth, LF / CR-LF / ^Z stripping,
+    backslash joining, end of file) next to the declarative "line k is the k-th physical line"; LineReader_MC checks
+    CountsPhysical / ReadsDeclarative / BufferSane for every file of <= 2 (3) lines of every length in small buffers
+    and for the lengths around every boundary of the real buffer.  The programs of the family put a faulty line
+    (pass-1 and pass-2 kind) BEHIND a data statement whose physical lines have stated lengths: one line / the long
+    first part of a continued statement / the part behind 864, 896, 897, 1016 joined characters (8 continued lines of
+    ~110 characters - no line is long), each with the length that just fits, fits with 1 spare, leaves the LF (CR | LF)
+    to the next chunk, 2 bytes more, one growth step more, several chunks, twice the buffer; x LF / CR-LF files x
+    file ending with a line end / without / with a lone ^Z / with ^Z directly behind the last line x main file / include file / both (the buffer has grown when
+    the main file goes on) x the statement once / twice x the faulty line last in the file or not.  The invariant
+    ReaderCountsPhysical ties the family to the position model: what MacroProc.FileProc adds to the line counter
+    (1 + continuation breaks) is what LineReader's ReadLnCont returns for the job's lengths under every capacity the
+    buffer can have.  The renderer (vlib/linelenrender.py) pads with blanks to the stated lengths and writes the stated
+    line ends.  Named deviation CrSplitFromLf (CR is stripped only in the chunk that carries the LF: a continued CR-LF
+    line whose CR is the last byte that fits is not continued; needs a composed line > 1000 characters, the manual
+    allows 256): the specification names the lines of such a statement, messages for them are not judged and reported
+    as SPEC-DRIFT, all other messages of the program are judged.
+    Why added: a seeded change that counts one line per fgets() call (LineCount++ moved into the chunk loop) passed
+    the check and all 201 golden tests - every generated line was short and every file ended with a line end, so a
+    physical line was always exactly one chunk.
 (G) DiagPos_MC, Fixed = {} with Dump: the same jobs are printed with the messages the specification expects under
     6 reporting configurations (-x 0..2, -n, -gnuerrors, -E file / !1 / stderr); each is run through the real asl
     (CPU 68000), the error channel is tokenised into (file, line, construct chain, class, number, include chain)
@@ -32,7 +55,9 @@ messages being exactly the expected one (so no clean line is named, EXPECT hides
 A mismatch is a KNOWN finding only for programs where the model's as-coded IRP_GetPos differs from the repaired one
 AND the real output equals the as-coded prediction.
 
-NOT covered: column numbers and the -x source echo (presence only, they are skipped by the tokeniser), messages of
+NOT covered: files that mix LF and CR-LF line ends or carry ^Z / CR elsewhere than at a line end (LineReader_MC has
+them, the replay does not), a backslash at the very end of a file, long lines inside macro / loop bodies (they are
+read by the same ReadLnCont when the body is stored), growth of the line buffer by macro expansion; column numbers and the -x source echo (presence only, they are skipped by the tokeniser), messages of
 the 2000 other error numbers (the position mechanism is common to all), fatal errors, -gnuerrors include chains
 deeper than 3, listing / error-file duplication rules (-L), positions inside STRUCT expansions, the `pos` string of
 corpus `diag` events (only their EXPECT accounting is validated).
@@ -43,6 +68,7 @@ import os
 
 from vlib import aslrun, build, tlc, tracecheck
 from vlib import diagparse as dp
+from vlib import linelenrender as llr
 from vlib import macrorender as mr
 from vlib.common import CheckError, Phase, log, pmap, subdir
 from vlib.report import Report
@@ -67,9 +93,9 @@ def repaired_in_repo():
         except (OSError, ValueError):
             pass
     return "{" + ", ".join('"%s"' % d for d in sorted(out)) + "}"
-FAMILIES = ["main", "incl", "after", "expect", "expecthist"]
+FAMILIES = ["main", "incl", "after", "linelen", "expect", "expecthist"]
 DIALECT = "68000"
-INVS = "PositionIsPlanted NoCleanLineNamed PositionsIdentify ExpectExact ExpectProtocol PendingEmptyOutside"
+INVS = "PositionIsPlanted NoCleanLineNamed PositionsIdentify ExpectExact ExpectProtocol PendingEmptyOutside ReaderCountsPhysical"
 
 
 def _cfg(name, text):
@@ -157,12 +183,20 @@ def main(tier):
         tasks.append(("mc_" + f, _cfg("mc_%s.cfg" % f, mc_cfg(f, tier, True, False)), False))
         tasks.append(("gen_" + f, _cfg("gen_%s.cfg" % f, mc_cfg(f, tier, False, True)), True))
 
+    tasks.append(("mc_reader", _cfg("mc_reader.cfg", 'CONSTANTS Tier = "%s"\nINIT Init\nNEXT Next\nINVARIANTS InvCountsPhysical '
+                                    'InvReadsDeclarative InvBufferSane\nCHECK_DEADLOCK FALSE\n' % tier), False))
+
     def run(t):
         name, cfg, collect = t
-        return name, tlc.run("DiagPos_MC", cfg, workers=2, timeout=2400, mem="6g", tags=("OUT",), collect=collect)
-    with Phase("TLC: %d runs of DiagPos_MC" % len(tasks)):
+        return name, tlc.run("LineReader_MC" if name == "mc_reader" else "DiagPos_MC", cfg, workers=2, timeout=2400, mem="6g",
+                             tags=("OUT",), collect=collect)
+    with Phase("TLC: %d runs of DiagPos_MC, 1 of LineReader_MC" % (len(tasks) - 1)):
         results = dict(pmap(run, tasks, workers=6))
     log("[tlc] " + " ".join("%s=%.0fs" % (n, r.wall) for n, r in results.items()))
+    r = tlc.must(results["mc_reader"], "LineReader_MC")
+    if r.violation:
+        raise CheckError("the line reader of LineReader.tla does not count physical lines: %s" % r.violation[:800])
+    rep.model("LineReader_MC", r)
     outs = []
     for f in FAMILIES:
         r = tlc.must(results["mc_" + f], "DiagPos_MC(%s, Fixed=all)" % f)
@@ -180,7 +214,10 @@ def main(tier):
     for o in outs:
         if o["indef"]:
             continue
-        src = {f: mr.render_file(ls, DIALECT, None, preamble=False) for f, ls in o["p"].items()}
+        if o["phys"]:          # family linelen: the specification states length and line end of every physical line
+            src = {f: llr.render_file(ls, o["phys"][f], DIALECT) for f, ls in o["p"].items()}
+        else:
+            src = {f: mr.render_file(ls, DIALECT, None, preamble=False) for f, ls in o["p"].items()}
         for run_ in o["runs"]:
             opts, want = options(run_["opt"])
             jobs.append({"sources": src, "opts": opts, "want": want, "events": "file,stmt,split,diag" if o["tag"][0].startswith("expect") and not run_["opt"]["gnu"] and run_["opt"]["x"] == 0 else None})
@@ -188,12 +225,18 @@ def main(tier):
     with Phase("replay %d runs of %d programs" % (len(jobs), len(outs))):
         res = aslrun.assemble_many(bld, jobs)
     texecs = []
+    shaped = {"programs": 0, "chunked": 0, "with_unjudged_lines": 0, "runs_with_unjudged_messages": 0}
+    for o in outs:
+        if o["phys"] and not o["indef"]:
+            shaped["programs"] += 1
+            shaped["chunked"] += bool(o["chunked"])
+            shaped["with_unjudged_lines"] += bool(o["skip"])
     for (o, run_, src, opts), rs in zip(meta, res):
         rep.evaluated()
         rep.distinct((src["a.asm"], " ".join(opts)), nontrivial=True)
         devs = sorted(o["devs"]) + sorted(o["pdevs"])
         key = {"dev_" + d: (d in devs) for d in ALLDEVS}
-        files = {"src_" + f: t for f, t in src.items()}
+        files = {"src_" + f: t.encode("latin-1") for f, t in src.items()}
         if rs.timeout or rs.sig is not None or rs.rc not in (0, 2):
             key["kind"] = "crash"
             rep.violation("asl ended abnormally (rc=%s signal=%s) on placement %s" % (rs.rc, rs.sig, o["tag"]),
@@ -202,6 +245,16 @@ def main(tier):
         text, other = channel(run_["opt"], rs)
         got, bad = dp.parse_channel(text, run_["opt"]["gnu"])
         g, w, c = norm(got), norm(run_["want"]), norm(run_["coded"])
+        if o["skip"]:          # lines of a statement the as-coded reader breaks (LineReader CrSplitFromLf): said by the spec
+            sk = {(x["file"].upper(), x["line"]) for x in o["skip"]}
+            g2, w, c = ([m for m in ms if (m[0], m[1]) not in sk] for ms in (g, w, c))
+            if len(g2) != len(g):
+                shaped["runs_with_unjudged_messages"] += 1
+                if shaped["runs_with_unjudged_messages"] == 1:
+                    rep.drift("a continued CR-LF line whose CR is the last byte that fits into the line buffer is not continued "
+                              "(ReadLnCont strips CR only together with LF; composed line longer than the manual's 256 characters): "
+                              "%s reports %s; the messages for these lines are not judged, all others are" % (o["tag"], [m for m in g if m not in g2][:3]))
+            g = g2
         files["channel.txt"] = text
         if "> > >" in other or (run_["opt"]["gnu"] and dp.parse_channel(other, True)[0]):
             key["kind"] = "channel"
@@ -225,6 +278,9 @@ def main(tier):
     for (o, run_, src, opts) in meta[:2] + meta[-2:]:
         rep.sample({"tag": o["tag"], "opts": opts, "source": src, "expected_by_TLC": run_["want"]})
     rep.traces(len(meta))
+    rep.part("linelen", **shaped)
+    if shaped["programs"] and not shaped["chunked"]:
+        raise CheckError("no program of family linelen has a physical line that arrives in more than one fgets() chunk")
 
     # ---- (V) EXPECT accounting of recorded runs -----------------------------------------------------------------
     if bld.hooks:
@@ -280,7 +336,7 @@ def replay(path):
     src = {}
     for fn in os.listdir(path):
         if fn.startswith("src_"):
-            src[fn[4:]] = open(os.path.join(path, fn)).read()
+            src[fn[4:]] = open(os.path.join(path, fn), "rb").read().decode("latin-1")      # line ends as recorded
     opts = v.get("case", {}).get("opts") or ["-q", "-cpu", DIALECT]
     res = aslrun.assemble(bld, src, opts=opts, want=["err.log"])
     log("rc=%s sig=%s\nstdout:\n%s\nstderr:\n%s\nerr.log:\n%s" % (res.rc, res.sig, res.out, res.err,
@@ -309,6 +365,14 @@ on a copy of the current /repo:
 Third round (seed missed: ENDEXPECT no longer emptied the list, an unmet announcement swallowed a later message
 outside any block) - invariant PendingEmptyOutside and family `expecthist` added; on a copy of the current /repo:
   CodeENDEXPECT reports but keeps the list, CodeEXPECT clears it          -> VIOLATION (expecthist)  (ctest 201/201)
+Fourth round (seed missed: strutil.c ReadLnCont counts one line per fgets() call - LineCount++ moved into the chunk
+loop; every generated line was short and every file ended with a line end) - spec/LineReader.tla, LineReader_MC, family
+`linelen` and invariant ReaderCountsPhysical added; on copies of the current /repo, quick tier:
+  LineCount++ per fgets() chunk (the seed)                                -> VIOLATION (linelen, 450 runs)  (ctest 201/201)
+  a line is counted only if it ended in LF (or is empty)                  -> VIOLATION (linelen: last line without line end)
+  LineCount-- when a ^Z is stripped                                       -> VIOLATION (linelen: ^Z behind the last line;
+      first run missed it: a LONE ^Z line ends the file and nothing is said after it - file end `zonline` added)
+  an LF that arrives as a chunk of its own counts as a further line       -> VIOLATION (linelen: lengths Fit+1)
 The proposed fix of IRP_GetPos applied: 0 violations, no known finding hit (the as-coded prediction of the model
 equals the real output in all 576 affected runs before the fix, the declarative expectation after it).
 """
